@@ -64,6 +64,9 @@ func ParseNth(input []Token) *[2]int {
 	case Literal:
 		if token.Value == "+" {
 			token_ = tokens.Next() // Whitespace after an initial "+" is invalid.
+			for _, isComment := token_.(Comment); isComment; _, isComment = token_.(Comment) {
+				token_ = tokens.Next()
+			}
 			if identToken, ok := token_.(Ident); ok {
 				ident := utils.AsciiLower(identToken.Value)
 				if ident == "n" {
